@@ -43,11 +43,11 @@ package session
 //
 //@ func (s *PacketStore) All() (all []packet.Generic)
 //@   requires [unlocked] held[s.mutex] == 0
-//@   ensures  [sound]    forall i int :: 0 <= i && i < len(all) ==> exists k packet.ID :: has(s.packets, k) && s.packets[k] == all[i]
+//@   ensures  [sound]    forall i int {all[i]} :: 0 <= i && i < len(all) ==> exists k packet.ID {s.packets[k]} :: has(s.packets, k) && s.packets[k] == all[i]
 //@   ensures  [fresh]    fresh(all)
 //@   ensures  [released] held[s.mutex] == 0
 //@   modifies held[s.mutex]
-//@   loop 1 invariant [sound] forall i int :: 0 <= i && i < len(all) ==> exists k packet.ID :: has(s.packets, k) && s.packets[k] == all[i]
+//@   loop 1 invariant [sound] forall i int {all[i]} :: 0 <= i && i < len(all) ==> exists k packet.ID {s.packets[k]} :: has(s.packets, k) && s.packets[k] == all[i]
 //@   loop 1 invariant [fresh] fresh(all)
 //@   loop 1 invariant [held]  held[s.mutex] == 1
 //
